@@ -74,6 +74,14 @@ def _judge_case(modname, desc, opts):
         else:
             out["inconclusive"] = "mismatch not reproduced on the plain binary"
         return out
+    if int(out["sha"][4:8], 16) % 40 == 0:
+        # hooks-off parity: the unhooked binary must behave byte for byte like the hooked one
+        obs_p = core.run_one({"src": r.text, "bin": core.BIN_PLAIN})
+        out["runs"] += 1
+        out["parity"] = True
+        if not obs_p.timeout and (obs_p.code, obs_p.out, obs_p.err) != (obs.code, obs.out, obs.err):
+            out["inconclusive"] = "hooks-on and hooks-off binaries disagree (instrumentation perturbs behaviour?)"
+            return out
     if res.ok:
         if obs.err:
             viol(prop_sig + "/stderr-on-success", "successful run wrote to stderr")
@@ -161,6 +169,8 @@ def run_cases(rep, modname, descs, opts=None, on_result=None, nontrivial=None, c
         for t in res.get("tags", []):
             rep.tally("tags", t)
         rep.tally("outcome", "ok" if res.get("ok") else "error:" + str(res.get("kind")))
+        if res.get("parity"):
+            rep.tally("hooks_off_parity", "compared_equal")
         if nontrivial is None or nontrivial(res):
             if res.get("sha"):
                 rep.distinct.add(res["sha"])
